@@ -11,5 +11,5 @@ old=sys.argv[3].encode().decode('unicode_escape'); new=sys.argv[4].encode().deco
 assert s.count(old)==1, "occurrences: %d"%s.count(old)
 open(sys.argv[2],'w').write(s.replace(old,new))
 PY
-(cd $S && diff -u a/$(basename $FILE) b/$(basename $FILE) | sed "s|^--- a/$(basename $FILE).*|--- a/$FILE|; s|^+++ b/$(basename $FILE).*|+++ b/$FILE|" > /verif/mutants/$NAME.patch) || true
-echo "wrote mutants/$NAME.patch ($(wc -l < /verif/mutants/$NAME.patch) lines)"
+(cd $S && diff -u a/$(basename $FILE) b/$(basename $FILE) | sed "s|^--- a/$(basename $FILE).*|--- a/$FILE|; s|^+++ b/$(basename $FILE).*|+++ b/$FILE|" > /verif/${OUTDIR:-mutants}/$NAME.patch) || true
+echo "wrote ${OUTDIR:-mutants}/$NAME.patch ($(wc -l < /verif/${OUTDIR:-mutants}/$NAME.patch) lines)"
